@@ -5527,6 +5527,17 @@ int64_t ExpressionEvaluator::evaluate_function_call_impl(const ASTNode *node) {
                                         .variables[full_member_name] =
                                         member_var;
 
+                                    // ネストした構造体メンバの場合、その下の
+                                    // 個別変数 (o.in.a など) も作成する。
+                                    // これが無いと o.in.a への代入と読み出しが
+                                    // 別々の場所を見てしまう
+                                    if (member_var.is_struct &&
+                                        !member_var.struct_members.empty()) {
+                                        interpreter_
+                                            .sync_direct_access_from_struct_value(
+                                                full_member_name, member_var);
+                                    }
+
                                     // 配列メンバの場合、個別要素変数も作成
                                     if (member_var.is_array) {
                                         // ソース側の配列要素変数をコピー
